@@ -115,6 +115,13 @@ Section MemLemmas.
       rewrite memmove_cons, Hm. reflexivity.
   Qed.
 
+  Lemma skipn_S_tail l p x b : skipn p l = x :: b -> skipn (S p) l = b.
+  Proof.
+    revert l. induction p as [|p IH]; intros l H.
+    - simpl in H. subst l. reflexivity.
+    - destruct l as [|y l]; [discriminate|]. simpl in H. apply IH in H. exact H.
+  Qed.
+
   Lemma write_all_app a ws rest :
     length ws <= length rest ->
     write_all (a ++ rest) (length a) ws = Some (a ++ ws ++ skipn (length ws) rest).
@@ -313,3 +320,361 @@ Section ListRefines.
       simpl. split; [red; reflexivity | reflexivity].
   Qed.
 End ListRefines.
+
+(* ------------------------------------------------------------------ lifting a step lemma to histories *)
+Section Lift.
+  Variable E : Type.
+  Variable eqb ltb : E -> E -> bool.
+  Variable zero : E.
+  Variable St : Type.
+  Variable step : St -> sop E -> St * out E.
+  Variable abs : St -> list E.
+  Variable inv : St -> Prop.
+  Variable c : kind.
+  Variable extra : list E -> sop E -> Prop.
+
+  Lemma refines_lift :
+    (forall s o, inv s -> in_range E eqb c (abs s) o = true -> extra (abs s) o ->
+       inv (fst (step s o)) /\
+       spec_ok E eqb ltb zero c (abs s) o (abs (fst (step s o))) (snd (step s o))) ->
+    forall ops s, inv s -> refines E eqb ltb zero St step abs inv c extra s ops.
+  Proof.
+    intros Hstep ops. induction ops as [|o ops IH]; intros s Hs; simpl; [exact I|].
+    intros Hin Hex. destruct (Hstep s o Hs Hin Hex) as [Hi Hsp].
+    split; [exact Hi|]. split; [exact Hsp|]. apply IH. exact Hi.
+  Qed.
+End Lift.
+
+(* ------------------------------------------------------------------ Array refines the sequence *)
+Section ArrayRefines.
+  Variable E : Type.
+  Variable eqb ltb : E -> E -> bool.
+  Variable zero : E.
+  Variables grow_cond shrink_cond : nat -> nat -> bool.
+  Variables grow_size shrink_size : nat -> nat -> nat.
+  Hypothesis Hgrow : grow_ok grow_cond grow_size.
+  Hypothesis Hshrink : shrink_ok shrink_cond shrink_size.
+  (* discharged by SortProofs.qsort_correct for an asymmetric, transitive ltb *)
+  Hypothesis qsort_ok : forall xs : list E,
+    exists ys, qsort ltb xs = Ok ys /\ Permutation xs ys /\ sorted_by_ltb E ltb ys.
+
+  Notation a_step := (a_step E eqb ltb grow_cond shrink_cond grow_size shrink_size).
+  Notation a_reserve_more := (a_reserve_more E grow_cond grow_size).
+  Notation a_reserve_less := (a_reserve_less E shrink_cond shrink_size).
+  Notation spec_step := (spec_step E eqb ltb zero).
+  Notation spec_ok := (spec_ok E eqb ltb zero).
+  Notation in_range := (in_range E eqb).
+  Notation SomeE := (@Some E).
+
+  Ltac asimp := cbn [SeqModels.a_step SeqModels.a_pop_at SeqModels.a_pop_pos fst snd cells nitems nslots].
+  Ltac asimp_in H := cbn [SeqModels.a_step SeqModels.a_pop_at fst snd cells nitems nslots] in H.
+
+  Lemma cells_values_shape (vs : list E) rest :
+    cells_values E (map SomeE vs ++ rest) (length vs) = Some vs.
+  Proof. induction vs as [|v vs IH]; simpl; [reflexivity | rewrite IH; reflexivity]. Qed.
+
+  Lemma a_abs_shape (a : array E) vs rest :
+    cells E a = map SomeE vs ++ rest -> length vs = nitems E a -> a_abs E a = vs.
+  Proof.
+    intros Hc Hn. unfold a_abs, a_values. rewrite Hc, <- Hn, cells_values_shape. reflexivity.
+  Qed.
+
+  Lemma a_inv_intro (a : array E) vs rest :
+    cells E a = map SomeE vs ++ rest -> length vs = nitems E a -> length (cells E a) = nslots E a ->
+    a_inv E a /\ a_abs E a = vs.
+  Proof.
+    intros Hc Hn Hl. split; [exists vs, rest; auto | eapply a_abs_shape; eauto].
+  Qed.
+
+  Lemma cells_find_shape (vs : list E) rest i v :
+    cells_find E eqb (map SomeE vs ++ rest) (length vs) i v = Some (find_first E eqb vs i v).
+  Proof.
+    revert i. induction vs as [|x vs IH]; intros i; simpl; [reflexivity|].
+    destruct (eqb x v); [reflexivity | apply IH].
+  Qed.
+
+  Lemma reserve_more_shape (a : array E) vs rest :
+    cells E a = map SomeE vs ++ rest -> length (cells E a) = nslots E a -> length vs <= nitems E a ->
+    exists rest', cells E (a_reserve_more a) = map SomeE vs ++ rest' /\
+                  length (cells E (a_reserve_more a)) = nslots E (a_reserve_more a) /\
+                  nitems E (a_reserve_more a) = nitems E a /\
+                  nitems E a <= nslots E (a_reserve_more a).
+  Proof.
+    intros Hc Hl Hn. unfold SeqModels.a_reserve_more.
+    destruct (Hgrow (nitems E a) (nslots E a)) as [Ht Hf].
+    destruct (grow_cond (nitems E a) (nslots E a)).
+    - specialize (Ht eq_refl). cbn [cells nitems nslots]. rewrite Hc.
+      rewrite realloc_app_ge by (rewrite map_length; lia).
+      eexists. split; [reflexivity|]. rewrite <- realloc_app_ge by (rewrite map_length; lia).
+      rewrite realloc_length. auto.
+    - specialize (Hf eq_refl). exists rest. auto.
+  Qed.
+
+  Lemma reserve_less_shape (a : array E) vs rest :
+    cells E a = map SomeE vs ++ rest -> length (cells E a) = nslots E a -> length vs = nitems E a ->
+    exists rest', cells E (a_reserve_less a) = map SomeE vs ++ rest' /\
+                  length (cells E (a_reserve_less a)) = nslots E (a_reserve_less a) /\
+                  nitems E (a_reserve_less a) = nitems E a.
+  Proof.
+    intros Hc Hl Hn. unfold SeqModels.a_reserve_less.
+    pose proof (Hshrink (nitems E a) (nslots E a)) as Ht.
+    destruct (shrink_cond (nitems E a) (nslots E a)).
+    - specialize (Ht eq_refl). cbn [cells nitems nslots]. rewrite Hc.
+      rewrite realloc_app_ge by (rewrite map_length; lia).
+      eexists. split; [reflexivity|]. rewrite <- realloc_app_ge by (rewrite map_length; lia).
+      rewrite realloc_length. auto.
+    - exists rest. auto.
+  Qed.
+
+  Lemma nth_error_shape (vs : list E) rest i :
+    i < length vs -> exists v, nth_error vs i = Some v /\ nth_error (map SomeE vs ++ rest) i = Some (Some v).
+  Proof.
+    intros H. destruct (nth_error vs i) as [v|] eqn:Hn; [|apply nth_error_None in Hn; lia].
+    exists v. split; [reflexivity|]. rewrite nth_error_app1 by (rewrite map_length; lia).
+    apply map_nth_error. exact Hn.
+  Qed.
+
+  (* Array_Pop_At at an in-range position *)
+  Lemma a_pop_pos_spec (a : array E) vs rest p :
+    cells E a = map SomeE vs ++ rest -> length vs = nitems E a -> length (cells E a) = nslots E a ->
+    p < length vs ->
+    a_inv E (fst (a_pop_pos E shrink_cond shrink_size a p)) /\
+    a_abs E (fst (a_pop_pos E shrink_cond shrink_size a p)) = remove_at E p vs /\
+    snd (a_pop_pos E shrink_cond shrink_size a p) = OUnit E.
+  Proof.
+    intros Hc Hn Hl Hp.
+    assert (Hsplit : vs = firstn p vs ++ skipn p vs) by (symmetry; apply firstn_skipn).
+    destruct (skipn p vs) as [|x B] eqn:HB.
+    { exfalso. assert (length (skipn p vs) = length vs - p) by apply skipn_length. rewrite HB in H. simpl in H. lia. }
+    set (A := firstn p vs) in *.
+    assert (HA : length A = p) by (unfold A; rewrite firstn_length; lia).
+    assert (Hlen : length vs = p + S (length B)) by (rewrite Hsplit, app_length; simpl; lia).
+    assert (Hrm : remove_at E p vs = A ++ B).
+    { unfold remove_at. fold A. f_equal.
+      apply (skipn_S_tail _ _ _ _ _ HB). }
+    assert (Hcells : cells E a = map SomeE A ++ Some x :: map SomeE B ++ rest).
+    { rewrite Hc. rewrite Hsplit at 1. rewrite map_app. simpl map. rewrite <- app_assoc. reflexivity. }
+    destruct (memmove_delete _ (map SomeE A) (map SomeE B) (Some x) rest) as (y & Hm).
+    rewrite !map_length, HA in Hm.
+    assert (Heq : a_pop_pos E shrink_cond shrink_size a p =
+                  (a_reserve_less (mkA E (map SomeE A ++ map SomeE B ++ y :: rest) (nitems E a - 1) (nslots E a)), OUnit E)).
+    { unfold a_pop_pos. rewrite Hcells. replace (nitems E a - 1 - p) with (length B) by lia.
+      rewrite Hm. reflexivity. }
+    rewrite Heq. cbn [fst snd].
+    set (a' := mkA E _ _ _).
+    assert (Hc' : cells E a' = map SomeE (A ++ B) ++ y :: rest)
+      by (unfold a'; cbn [cells]; rewrite map_app, <- app_assoc; reflexivity).
+    assert (Hl' : length (cells E a') = nslots E a').
+    { unfold a'. cbn [cells nslots]. rewrite <- Hl, Hcells.
+      rewrite !app_length, !map_length. simpl. rewrite !app_length, !map_length. simpl. lia. }
+    assert (Hn' : length (A ++ B) = nitems E a')
+      by (unfold a'; cbn [nitems]; rewrite app_length; lia).
+    destruct (reserve_less_shape a' _ _ Hc' Hl' Hn') as (rest' & H1 & H2 & H3).
+    rewrite Hrm. split; [|split; [|reflexivity]].
+    - exists (A ++ B), rest'. rewrite H3. auto.
+    - eapply a_abs_shape; [exact H1 | rewrite H3; exact Hn'].
+  Qed.
+
+  Theorem a_step_refines (a : array E) (o : sop E) :
+    a_inv E a -> in_range KArray (a_abs E a) o = true ->
+    a_inv E (fst (a_step a o)) /\
+    spec_ok KArray (a_abs E a) o (a_abs E (fst (a_step a o))) (snd (a_step a o)).
+  Proof.
+    intros (vs & rest & Hc & Hn & Hl) Hin.
+    rewrite (a_abs_shape a vs rest Hc Hn) in *.
+    destruct a as [cs n s]. cbn [cells nitems nslots] in *. subst cs n.
+    set (a0 := mkA E (map SomeE vs ++ rest) (length vs) s) in *.
+    assert (Hpush : forall v a2 r, a_step a0 (SPush E v) = (a2, r) ->
+      a_inv E a2 /\ a_abs E a2 = vs ++ [v] /\ r = OUnit E).
+    { intros v a2 r Hstep. unfold a0 in Hstep. asimp_in Hstep.
+      destruct (reserve_more_shape (mkA E (map SomeE vs ++ rest) (S (length vs)) s) vs rest eq_refl Hl)
+        as (rest' & H1 & H2 & H3 & H4); [cbn [nitems]; lia|].
+      set (a1 := a_reserve_more _) in *.
+      cbn [nitems] in *. rewrite H1 in Hstep.
+      destruct rest' as [|c rest'].
+      { exfalso. rewrite H1, app_nil_r, map_length in H2. lia. }
+      pose proof (set_at_app_l _ (map SomeE vs) rest' (SomeE v) c) as Hset.
+      rewrite map_length in Hset. rewrite Hset in Hstep.
+      injection Hstep as <- <-.
+      set (a' := mkA E _ _ _).
+      assert (Hc' : cells E a' = map SomeE (vs ++ [v]) ++ rest')
+        by (unfold a'; cbn [cells]; rewrite map_app, <- app_assoc; reflexivity).
+      assert (Hn' : length (vs ++ [v]) = nitems E a')
+        by (unfold a'; cbn [nitems]; rewrite app_length; simpl; lia).
+      assert (Hl' : length (cells E a') = nslots E a').
+      { unfold a'. cbn [cells nslots]. rewrite <- H2, H1, !app_length. simpl. lia. }
+      destruct (a_inv_intro a' _ _ Hc' Hn' Hl') as [Hi Ha]. auto. }
+    assert (Hself : a_inv E a0 /\ a_abs E a0 = vs)
+      by (apply (a_inv_intro a0 vs rest); auto).
+    destruct (a_step a0 o) as [a2 r] eqn:Hstep. cbn [fst snd].
+    destruct o; try (simpl in Hin; discriminate);
+      unfold spec_ok; try (unfold SeqModels.spec_step; rewrite Hin; simpl negb; cbv iota);
+      simpl in Hin.
+    - (* push *) destruct (Hpush _ _ _ Hstep) as (H1 & H2 & H3). rewrite H2, H3. auto.
+    - (* pop *)
+      unfold a0 in Hstep. asimp_in Hstep.
+      destruct (Nat.eqb_spec (length vs) 0) as [H0|H0]; [discriminate|].
+      injection Hstep as <- <-.
+      destruct vs as [|x vs] using rev_ind; [simpl in H0; lia|]. clear IHvs.
+      rewrite removelast_last.
+      set (a' := mkA E _ _ _).
+      assert (Hc' : cells E a' = map SomeE vs ++ Some x :: rest)
+        by (unfold a'; cbn [cells]; rewrite map_app, <- app_assoc; reflexivity).
+      assert (Hn' : length vs = nitems E a')
+        by (unfold a'; cbn [nitems]; rewrite app_length; simpl; lia).
+      assert (Hl' : length (cells E a') = nslots E a') by (unfold a'; cbn [cells nslots]; exact Hl).
+      destruct (reserve_less_shape a' _ _ Hc' Hl' Hn') as (rest' & H1 & H2 & H3).
+      rewrite <- H3 in Hn'.
+      destruct (a_inv_intro _ _ _ H1 Hn' H2) as [Hi Ha]. rewrite Ha. auto.
+    - (* push_at *)
+      unfold a0 in Hstep. asimp_in Hstep. unfold push_at_pos in *.
+      destruct (inb (length vs + 1) (norm (length vs + 1) k)) eqn:Hi; [|discriminate].
+      rewrite oob_inb, Hi in Hstep. simpl negb in Hstep. cbv iota in Hstep.
+      apply inb_pos in Hi as [Hlt _]. set (p := Z.to_nat (norm (length vs + 1) k)) in *.
+      destruct (reserve_more_shape (mkA E (map SomeE vs ++ rest) (S (length vs)) s) vs rest eq_refl Hl)
+        as (rest' & H1 & H2 & H3 & H4); [cbn [nitems]; lia|].
+      set (a1 := a_reserve_more _) in *.
+      cbn [nitems] in *. rewrite H1, H3 in Hstep.
+      destruct rest' as [|c rest'].
+      { exfalso. rewrite H1, app_nil_r, map_length in H2. lia. }
+      assert (Hsplit : vs = firstn p vs ++ skipn p vs) by (symmetry; apply firstn_skipn).
+      set (A := firstn p vs) in *. set (B := skipn p vs) in *.
+      assert (HA : length A = p) by (unfold A; rewrite firstn_length; lia).
+      assert (HB : length B = length vs - p) by (unfold B; apply skipn_length).
+      assert (Hcells : map SomeE vs ++ c :: rest' = map SomeE A ++ map SomeE B ++ c :: rest')
+        by (rewrite Hsplit at 1; rewrite map_app, <- app_assoc; reflexivity).
+      rewrite Hcells in Hstep.
+      destruct (memmove_insert _ (map SomeE A) (map SomeE B) c rest' (Some v)) as (l1 & Hm & Hs).
+      rewrite !map_length in Hm. rewrite HA in Hm. rewrite map_length, HA in Hs.
+      replace (S (length vs) - 1 - p) with (length B) in Hstep by lia.
+      rewrite Hm, Hs in Hstep. injection Hstep as <- <-.
+      set (a' := mkA E _ _ _).
+      assert (Hc' : cells E a' = map SomeE (insert_at E p v vs) ++ rest').
+      { unfold a', insert_at. cbn [cells]. fold A B. rewrite map_app. simpl map.
+        rewrite <- app_assoc. reflexivity. }
+      assert (Hn' : length (insert_at E p v vs) = nitems E a')
+        by (unfold a'; cbn [nitems]; rewrite insert_at_length by lia; reflexivity).
+      assert (Hl' : length (cells E a') = nslots E a').
+      { rewrite Hc'. unfold a'. cbn [nslots]. rewrite <- H2, H1.
+        rewrite !app_length, !map_length. rewrite insert_at_length by lia. simpl. lia. }
+      destruct (a_inv_intro a' _ _ Hc' Hn' Hl') as [Hi Ha]. rewrite Ha. auto.
+    - (* pop_at *)
+      unfold a0 in Hstep. cbn [SeqModels.a_step] in Hstep. unfold a_pop_at in Hstep. cbn [nitems] in Hstep.
+      rewrite oob_inb, Hin in Hstep. simpl negb in Hstep. cbv iota in Hstep.
+      apply inb_pos in Hin as [Hlt _].
+      destruct (a_pop_pos_spec a0 vs rest _ eq_refl eq_refl Hl Hlt) as (H1 & H2 & H3).
+      fold a0 in Hstep. rewrite Hstep in H1, H2, H3. cbn [fst snd] in *.
+      rewrite H2, H3. auto.
+    - (* set *)
+      unfold a0 in Hstep. asimp_in Hstep. rewrite oob_inb, Hin in Hstep. simpl negb in Hstep. cbv iota in Hstep.
+      apply inb_pos in Hin as [Hlt _]. set (p := Z.to_nat (norm (length vs) k)) in *.
+      assert (Hsplit : vs = firstn p vs ++ skipn p vs) by (symmetry; apply firstn_skipn).
+      destruct (skipn p vs) as [|x B] eqn:HB.
+      { exfalso. assert (length (skipn p vs) = length vs - p) by apply skipn_length. rewrite HB in H. simpl in H. lia. }
+      set (A := firstn p vs) in *.
+      assert (HA : length A = p) by (unfold A; rewrite firstn_length; lia).
+      assert (Hcells : map SomeE vs ++ rest = map SomeE A ++ Some x :: map SomeE B ++ rest)
+        by (rewrite Hsplit at 1; rewrite map_app; simpl map; rewrite <- app_assoc; reflexivity).
+      rewrite Hcells in Hstep.
+      pose proof (set_at_app_l _ (map SomeE A) (map SomeE B ++ rest) (SomeE v) (Some x)) as Hset.
+      rewrite map_length, HA in Hset. rewrite Hset in Hstep. injection Hstep as <- <-.
+      assert (Hrp : replace_at E p v vs = A ++ v :: B).
+      { unfold replace_at. fold A. do 2 f_equal. apply (skipn_S_tail _ _ _ _ _ HB). }
+      set (a' := mkA E _ _ _).
+      assert (Hc' : cells E a' = map SomeE (A ++ v :: B) ++ rest)
+        by (unfold a'; cbn [cells]; rewrite map_app; simpl map; rewrite <- app_assoc; reflexivity).
+      assert (Hn' : length (A ++ v :: B) = nitems E a').
+      { unfold a'. cbn [nitems]. rewrite Hsplit at 1. rewrite !app_length. reflexivity. }
+      assert (Hl' : length (cells E a') = nslots E a').
+      { rewrite Hc'. unfold a'. cbn [nslots]. rewrite <- Hl, Hcells.
+        rewrite !app_length, !map_length. simpl. rewrite !app_length, !map_length. simpl. lia. }
+      destruct (a_inv_intro a' _ _ Hc' Hn' Hl') as [Hi Ha]. rewrite Ha, Hrp. auto.
+    - (* get *)
+      unfold a0 in Hstep. asimp_in Hstep. rewrite oob_inb, Hin in Hstep. simpl negb in Hstep. cbv iota in Hstep.
+      apply inb_pos in Hin as [Hlt _]. unfold a_cell in Hstep. cbn [cells] in Hstep.
+      destruct (nth_error_shape vs rest _ Hlt) as (v & Hv1 & Hv2). rewrite Hv2 in Hstep. rewrite Hv1.
+      injection Hstep as <- <-. destruct Hself as [Hi Ha]. fold a0. rewrite Ha. auto.
+    - (* mem *)
+      unfold a0 in Hstep. asimp_in Hstep. rewrite cells_find_shape in Hstep.
+      pose proof (find_first_spec E eqb vs 0 v) as Hf. destruct Hself as [Hi Ha].
+      destruct (find_first E eqb vs 0 v) as [p|]; injection Hstep as <- <-; fold a0; rewrite Ha.
+      + destruct Hf as (_ & _ & _ & -> & _). auto.
+      + rewrite Hf. auto.
+    - (* rem *)
+      unfold a0 in Hstep. asimp_in Hstep. rewrite cells_find_shape in Hstep.
+      pose proof (find_first_spec E eqb vs 0 v) as Hf.
+      destruct (find_first E eqb vs 0 v) as [p|]; [|congruence].
+      unfold a_pop_at in Hstep. cbn [nitems] in Hstep.
+      destruct Hf as (_ & H2 & H3 & _). rewrite Nat.sub_0_r in *.
+      assert (Hnorm : norm (length vs) (Z.of_nat p) = Z.of_nat p)
+        by (unfold norm; destruct (Z.ltb_spec (Z.of_nat p) 0); lia).
+      rewrite Hnorm in Hstep. unfold oob in Hstep.
+      destruct (Z.ltb_spec (Z.of_nat p) 0); [lia|].
+      destruct (Z.geb_spec (Z.of_nat p) (Z.of_nat (length vs))); [lia|].
+      simpl orb in Hstep. cbv iota in Hstep. rewrite Nat2Z.id in Hstep.
+      destruct (a_pop_pos_spec a0 vs rest p eq_refl eq_refl Hl H2) as (H4 & H5 & H6).
+      fold a0 in Hstep. rewrite Hstep in H4, H5, H6. cbn [fst snd] in *.
+      rewrite H5, H6, H3. auto.
+    - (* concat *)
+      unfold a0 in Hstep. asimp_in Hstep.
+      destruct (reserve_more_shape (mkA E (map SomeE vs ++ rest) (length vs + length vs0) s) vs rest eq_refl Hl)
+        as (rest' & H1 & H2 & H3 & H4); [cbn [nitems]; lia|].
+      set (a1 := a_reserve_more _) in *.
+      cbn [nitems] in *. rewrite H1 in Hstep.
+      assert (Hr : length vs0 <= length rest').
+      { rewrite H1, app_length, map_length in H2. lia. }
+      pose proof (write_all_app _ (map SomeE vs) (map SomeE vs0) rest') as Hw.
+      rewrite !map_length in Hw. rewrite (Hw Hr) in Hstep. injection Hstep as <- <-.
+      set (a' := mkA E _ _ _).
+      assert (Hc' : cells E a' = map SomeE (vs ++ vs0) ++ skipn (length vs0) rest').
+      { unfold a'. cbn [cells]. rewrite map_app, <- app_assoc. reflexivity. }
+      assert (Hn' : length (vs ++ vs0) = nitems E a')
+        by (unfold a'; cbn [nitems]; apply app_length).
+      assert (Hl' : length (cells E a') = nslots E a').
+      { rewrite Hc'. unfold a'. cbn [nslots]. rewrite <- H2, H1.
+        rewrite !app_length, !map_length, app_length, skipn_length. lia. }
+      destruct (a_inv_intro a' _ _ Hc' Hn' Hl') as [Hi Ha]. rewrite Ha. auto.
+    - (* append *) destruct (Hpush _ _ _ Hstep) as (H1 & H2 & H3). rewrite H2, H3. auto.
+    - (* resize *)
+      unfold a0 in Hstep. asimp_in Hstep. destruct (Nat.eqb_spec n 0) as [->|Hn0]; injection Hstep as <- <-.
+      + split; [exists [], []; auto | reflexivity].
+      + set (a' := mkA E _ _ _).
+        assert (Hc' : exists rest', cells E a' = map SomeE (firstn n vs) ++ rest').
+        { unfold a'. cbn [cells]. destruct (Nat.le_gt_cases n (length vs)) as [Hle|Hgt].
+          - exists []. rewrite realloc_le by (rewrite app_length, map_length; lia).
+            rewrite firstn_app, map_length. replace (n - length vs) with 0 by lia.
+            simpl. rewrite firstn_map. reflexivity.
+          - eexists. rewrite realloc_app_ge by (rewrite map_length; lia).
+            rewrite firstn_all2 by lia. reflexivity. }
+        destruct Hc' as (rest' & Hc').
+        assert (Hn' : length (firstn n vs) = nitems E a')
+          by (unfold a'; cbn [nitems]; apply firstn_length).
+        assert (Hl' : length (cells E a') = nslots E a')
+          by (unfold a'; cbn [cells nslots]; apply realloc_length).
+        destruct (a_inv_intro a' _ _ Hc' Hn' Hl') as [Hi Ha]. rewrite Ha. auto.
+    - (* sort *)
+      unfold a0 in Hstep. asimp_in Hstep. unfold a_values in Hstep. cbn [cells nitems] in Hstep.
+      rewrite cells_values_shape in Hstep.
+      destruct (qsort_ok vs) as (ys & Hq & Hp & Hs). rewrite Hq in Hstep. injection Hstep as <- <-.
+      assert (Hlen : length ys = length vs) by (symmetry; apply Permutation_length; exact Hp).
+      set (a' := mkA E _ _ _).
+      assert (Hc' : cells E a' = map SomeE ys ++ rest).
+      { unfold a'. cbn [cells]. f_equal. rewrite <- (map_length SomeE vs).
+        rewrite skipn_app, Nat.sub_diag, skipn_all. reflexivity. }
+      assert (Hn' : length ys = nitems E a') by (unfold a'; cbn [nitems]; exact Hlen).
+      assert (Hl' : length (cells E a') = nslots E a').
+      { rewrite Hc'. unfold a'. cbn [nslots]. rewrite <- Hl, !app_length, !map_length. lia. }
+      destruct (a_inv_intro a' _ _ Hc' Hn' Hl') as [Hi Ha]. rewrite Ha. auto.
+    - (* assign *)
+      unfold a0 in Hstep. asimp_in Hstep. injection Hstep as <- <-. unfold a_new.
+      destruct (a_inv_intro (mkA E (map SomeE vs0) (length vs0) (length vs0)) vs0 [])
+        as [Hi Ha]; cbn [cells nitems nslots]; try rewrite app_nil_r; try rewrite map_length; auto.
+      rewrite Ha. auto.
+    - (* copy *)
+      unfold a0 in Hstep. asimp_in Hstep. unfold a_values in Hstep. cbn [cells nitems] in Hstep.
+      rewrite cells_values_shape in Hstep. injection Hstep as <- <-. unfold a_new.
+      destruct (a_inv_intro (mkA E (map SomeE vs) (length vs) (length vs)) vs [])
+        as [Hi Ha]; cbn [cells nitems nslots]; try rewrite app_nil_r; try rewrite map_length; auto.
+      rewrite Ha. auto.
+  Qed.
+End ArrayRefines.
